@@ -198,7 +198,7 @@ def run(ctx):
     # coarse evolvent densities (the stop rule is about eps, whatever the grid) and runs with local refinement switched
     # on (the count and the accuracy are those of the global search)
     for N in (1, 2):
-        for extra in (dict(density=2), dict(density=4), dict(refine=True)):
+        for extra in (dict(density=2), dict(density=4), dict(refine=True), dict(constraints=2)):
             cfg = dict(N=N, r=2.0, box="B0" if N != 2 else "B1", **extra)
             dd = d - 1
             plan.append((cfg, "A013", dd))
